@@ -16,7 +16,8 @@ from fractions import Fraction
 import numpy as np
 from common import *
 
-IMPORTS = "From CV Require Import Base.Cmp Base.Ext Base.QcLin Model.C08_NUTS.\nFrom Coq Require Import QArith Qcanon."
+IMPORTS = ("From Coq Require Import Reals.\nFrom Interval Require Import Tactic.\n"
+           "From CV Require Import Base.Cmp Base.Ext Base.QcLin Model.C08_NUTS Model.C08_TuneR.\nFrom Coq Require Import QArith Qcanon.")
 RULE = ("scripted transitions: implementation x target family (gauss, two-piece normal, quartic, box with -inf/nan/+inf outside) x "
         "max_depth x step-size class (tiny/mid/huge) x phase (fresh, second transition, after warm-up); dims 1-3, dyadic start/momentum; "
         "distinct = distinct (implementation, target, inputs, script); trivial = transitions whose first leaf already stops the "
@@ -656,6 +657,34 @@ def sched_case(o0, impl, spec, md, chain_meta):
     return Case(expr=expr, meta=meta, cell="exp/schedule/warm", kind="DECISION", impl_fail=fail, signature=sig if fail else "")
 
 
+def creal(x):
+    """exact real literal of a float"""
+    f = frac(x)
+    return "(%d / %d)" % (f.numerator, f.denominator) if f.denominator != 1 else "(%d)" % f.numerator
+
+
+TUNE_TAC = ("unfold da_eps_closed, da_bar_step, da_mu, dsum, da_gamma, da_t0, da_kappa; cbn [fold_right]; "
+            "interval with (i_prec 90).")
+
+
+def tune_cases(impl, eps0, alphas, eps_n, bar_prev, bar_n, chain_meta, delta=0.6):
+    """two kernel-checked enclosures: the step size after the statistics alpha_1..alpha_n (closed form of the model's
+    dual averaging, Props/C08_Tune.v) and the update of epsilon_bar from the previous epsilon_bar"""
+    n = len(alphas)
+    out = []
+    if n == 0 or not all(np.isfinite(v) for v in list(alphas) + [eps_n, bar_prev, bar_n]) or min(eps_n, bar_prev, bar_n) <= 0:
+        return out
+    tol = lambda v: creal(float(Fraction(1, 10**9) * (1 + abs(frac(v)))))
+    e1 = "(Rabs (da_eps_closed %s %s %d [%s] - %s) <= %s)%%R" % (creal(eps0), creal(delta), n, "; ".join(creal(a) for a in alphas),
+                                                                 creal(eps_n), tol(eps_n))
+    e2 = "(Rabs (da_bar_step %d %s %s - %s) <= %s)%%R" % (n, creal(eps_n), creal(bar_prev), creal(bar_n), tol(bar_n))
+    for nm, e in (("epsilon", e1), ("epsilon_bar", e2)):
+        meta = dict(chain_meta)
+        meta.update({"tune_enclosure": nm, "n": n})
+        out.append(Case(expr=e, meta=meta, cell="%s/tune-enclosure/%s" % (impl, nm), kind="ENCLOSURE", tac=TUNE_TAC))
+    return out
+
+
 def dual_case(o0, spec, md, chain_meta, warm):
     """legacy sampler: the step size of every iteration from the statistics of the warm-up iterations"""
     du = o0["dual"]
@@ -727,6 +756,22 @@ def gen_chain(ctx, rng, cuqi, state, impl, tk, md, epsc, warm, cases, inners, n_
         cases.append(sched_case(obs[0], impl, spec, md, chain_meta))
     if impl == "leg" and warm and "dual" in obs[0]:
         cases.append(dual_case(obs[0], spec, md, chain_meta, warm))
+        du = obs[0]["dual"]
+        if len(du["used"]) >= warm + 2 and len(du["bars"]) >= warm + 1 and du["bars"][warm - 1] is not None and du["bars"][warm] is not None:
+            # epsilon_bar_list[k-1] is the epsilon_bar in force at iteration k (before its adaptation): bar_{n-1} and bar_n
+            cases.extend(tune_cases("leg", du["eps0"], du["alphas"], du["used"][warm], du["bars"][warm - 1], du["bars"][warm], chain_meta))
+    if impl == "exp" and warm and "sched" in obs[0]:
+        sc = obs[0]["sched"]
+        alphas, tunes, last_alpha = [], [], None
+        for ev in sc["events"]:
+            if ev[0] == "step":
+                last_alpha = ev[1]
+            elif ev[0] == "tune":
+                alphas.append(last_alpha)
+                tunes.append((ev[1], ev[2]))
+        if tunes and all(a is not None for a in alphas):
+            bar_prev = tunes[-2][1] if len(tunes) >= 2 else 1.0
+            cases.extend(tune_cases("exp", sc["eps0"], alphas, tunes[-1][0], bar_prev, tunes[-1][1], chain_meta))
 
 
 def tie_cases(ctx, rng, cuqi, state, cases):
@@ -809,7 +854,7 @@ def run(ctx):
         deep = (ctx.thorough and it % 12 == 5) or (not ctx.thorough and it == 6)   # depth 2: up to 15 sources x 2^10 scripted runs
         if deep:
             md = 2
-        spec = gen_spec(rng, tk, d=(1 if deep else rng.randint(1, 2)))
+        spec = gen_spec(rng, tk, d=(1 if deep else 1 + (it // 2) % 3))      # dimensions 1, 2 and 3
         if tk == "quartic":
             md = min(md, 1)
         eps = rng.choice([0.25, 0.5, 2.0, 0.125, 4.0])
@@ -841,9 +886,9 @@ def run(ctx):
     # deep orbits (three doublings) with a slice variable that cuts them: history-dependent top-level decisions
     for it in range(ctx.n(12, 40)):
         tk = ["gauss", "split", "gauss"][it % 3]
-        spec = gen_spec(rng, tk, d=1)
+        spec = gen_spec(rng, tk, d=(3 if it % 4 == 3 else 1))      # every fourth one in 3 dimensions (U-turn tests on all coordinates)
         eps = rng.choice([0.125, 0.25, 0.5])
-        x0, z = gen_start(rng, spec), gen_z(rng, 1)
+        x0, z = gen_start(rng, spec), gen_z(rng, dim_of(spec))
         with np.errstate(all="ignore"):
             st_, f_ = orbit(spec, eps, x0, z, -7, 7)
             hh = {i_: float(f_(s_[0])) - 0.5 * float(np.dot(s_[1], s_[1])) for i_, s_ in st_.items()}
@@ -888,7 +933,7 @@ def oracle(ctx, meta):
     if meta.get("warm"):
         return None
     z, e, us = meta["scripts"][0]
-    if dim_of(spec) > 2 or (spec["kind"] == "quartic" and md > 1):
+    if dim_of(spec) > 3 or (spec["kind"] == "quartic" and md > 1):
         return None
     d = orbit_stationary(cuqi, meta["impl"], spec, meta["eps"], md, meta["x0"], z, e, all_targets=(md <= 1 or bool(meta.get("exact"))),
                          allow_ties=bool(meta.get("exact")))
@@ -947,15 +992,13 @@ def search(ctx):
     for it in range(ctx.n(150, 500)):
         tk = TARGET_KINDS[it % len(TARGET_KINDS)]
         md = [1, 0, 1, 2, 1, 1, 2][it % 7]
-        spec = gen_spec(rng, tk, d=1)
+        spec = gen_spec(rng, tk, d=(3 if it % 3 == 2 else 1))
         if tk == "quartic":
             md = min(md, 1)
         eps = rng.choice([0.25, 0.5, 2.0, 0.125])
-        x0, z = gen_start(rng, spec), gen_z(rng, 1)
+        x0, z = gen_start(rng, spec), gen_z(rng, dim_of(spec))
         e, _ = gen_script(rng, md)
         for impl in ("exp", "leg"):
-            if impl == "leg" and tk == "box:pinf":
-                continue
             d = orbit_stationary(cuqi, impl, spec, eps, md, x0, z, e)
             if d:
                 out.append(Case(expr="true", meta={"impl": impl, "target": spec, "eps": eps, "max_depth": md, "x0": x0, "z": z, "e": e, "orbit": True},
@@ -1004,7 +1047,7 @@ def replay(ctx, meta):
     inner, _ = case_expr(m["impl"], m["target"], m["max_depth"], o, z, e, us, m.get("guard", m["impl"] == "exp"), m.get("exact", False))
     rc, out = eval_in_coq(IMPORTS, inner)
     print("model verdict (0 agree, 1 inconclusive, 2 disagree):", out)
-    if not m.get("warm") and dim_of(m["target"]) <= 2:
+    if not m.get("warm") and dim_of(m["target"]) <= 3:
         md = min(m["max_depth"], 2)
         print("stationarity on the orbit through the start (real sampler, max_depth<=2):",
               orbit_stationary(cuqi, m["impl"], m["target"], m["eps"], md, m["x0"], scripts[0][0], scripts[0][1],
